@@ -210,7 +210,7 @@ func partTransplant() (cases int) {
 		return 0
 	}
 	cfg := bindConfigs[1]
-	for _, h := range repHistories() {
+	for _, h := range repHistoriesOf(historySlots(true)) {
 		if h.name == "one-key-each" {
 			continue
 		}
